@@ -89,6 +89,10 @@ func (mon *verifSMMon) check(m *StateMachine, ev string, rlc *tsi.RoundLifecycle
 	if mon.events%50 == 0 {
 		mon.emit(map[string]any{"kind": "progress", "pid": os.Getpid(), "events": mon.events, "machines": len(mon.last)})
 	}
+	if rlc.Ctx != nil && rlc.Ctx.Err() != nil {
+		// the state machine is being shut down: a handler that gave up half way (cancelled round entrance) is not judged
+		return
+	}
 	cur := verifSMPos{H: rlc.H, R: rlc.R, S: rlc.S, Replaying: rlc.IsReplaying()}
 	if last, ok := mon.last[m]; ok {
 		if cur.H < last.H || (cur.H == last.H && cur.R < last.R) {
